@@ -97,17 +97,29 @@ class E1Check(runner.Check):
         for ti in range(len(self.types(tier))):
             for part in range(b["parts"]):
                 out.append((tier, ti, part))
+        for g in range(len(self.extra_states(tier))):
+            out.append((tier, "extra", g))
         return out
 
     def arrays(self, T, b):
         return values.arrays(T, b["N"], b["M"], b["K"], self.labeler)
 
+    def extra_states(self, tier):
+        """-> list of groups; a group is a list of (T, tvs, [(layout description, encoding names), ...]) built by hand
+        (leaf dtypes and value sets that the generic value universe does not contain). One shard per group."""
+        return []
+
     def run_shard(self, shard):
         tier, ti, part = shard
+        st = Stats()
+        self._no = 0
+        if ti == "extra":
+            for T, tvs, enclist in self.extra_states(tier)[part]:
+                self._explore(st, tier, T, tvs, enclist, True)
+            pool.unmark()
+            return st.pack()
         T = self.types(tier)[ti]
         b = self.bounds(tier)
-        st = Stats()
-        no = 0
         nstates = 0
         for ai, tvs in enumerate(self.arrays(T, b)):
             if ai % b["parts"] != part:
@@ -116,6 +128,12 @@ class E1Check(runner.Check):
             if nstates > b["state_cap"]:
                 st.caps.append("type %s part %d: value cap %d reached" % (values.tstr(T), part, b["state_cap"]))
                 break
+            self._explore(st, tier, T, tvs, encs.encodings(T, tvs, b["enc_k"], self.exotic), nstates % 37 == 1)
+        pool.unmark()
+        return st.pack()
+
+    def _explore(self, st, tier, T, tvs, enclist, sample):
+        if True:
             ops = self.alphabet(T, tvs, tier)
             exp = []
             for opname, args in ops:
@@ -125,12 +143,12 @@ class E1Check(runner.Check):
                     exp.append(("error", str(err)))
                 except refops.Skip as err:
                     exp.append(("skip", str(err)))
-            for d, names in encs.encodings(T, tvs, b["enc_k"], self.exotic):
+            for d, names in enclist:
                 st.states += 1
                 lay = layouts.build(d)
                 for (opname, args), (ekind, evalue) in zip(ops, exp):
-                    no += 1
-                    pool.mark(no)
+                    self._no += 1
+                    pool.mark(self._no)
                     st.transitions += 1
                     st.evaluations += 1
                     try:
@@ -168,11 +186,9 @@ class E1Check(runner.Check):
                         else:
                             self._viol(st, "unexpected-error", T, tvs, d, names, opname, args,
                                        "expected %r, raised %s: %s" % (evalue, type(got[1]).__name__, str(got[1])[:200]))
-                if nstates % 37 == 1 and names:
+                if sample and names:
                     st.sample({"type": values.tstr(T), "value": repr(values.strip(tvs))[:200], "encoding": names,
                                "layout": layouts.short(d)[:300], "op": [ops[0][0], list(ops[0][1])] if ops else None})
-        pool.unmark()
-        return st.pack()
 
     def _viol(self, st, failure, T, tvs, d, names, opname, args, text):
         case = {"layout": layouts.to_json(d), "type": values.tstr(T), "op": opname, "args": _jsonable(args),
